@@ -1175,10 +1175,16 @@ func (c *Compiler) writeCopy(node *node, l, r string, depth int) error {
 	case typeMap:
 		ln := "len(" + c.fmtVnb(node, r, depth) + ")"
 		c.wl("if ", ln, ">0 {")
-		c.wl("if ", l, "==nil{")
 		lb1 := "buf" + strconv.Itoa(depth)
-		c.wl(lb1, ":=make(", c.fmtT(node), ",", ln, ")")
-		c.wl(l, "=", c.fmtP(node, lb1, depth))
+		if depth == 0 {
+			// The root is reached through a pointer that is never nil: the map behind it may be.
+			c.wl("if *", l, "==nil{")
+			c.wl("*", l, "=make(", c.fmtT(node), ",", ln, ")")
+		} else {
+			c.wl("if ", l, "==nil{")
+			c.wl(lb1, ":=make(", c.fmtT(node), ",", ln, ")")
+			c.wl(l, "=", c.fmtP(node, lb1, depth))
+		}
 		c.wl("}")
 		rk := "rk" + strconv.Itoa(depth)
 		rv := "rv" + strconv.Itoa(depth)
